@@ -300,8 +300,8 @@ class History:
         tid = self.ids[cls] if isinstance(cls, str) else cls
         self.packets.append((tid, tb, payload, label)); self.labels[label] += 1
     def new_id(self):
-        if self.rng.random() < 0.06:
-            return self.rng.choice([0, 1, -5, 2 ** 31 - 1, 1154822, 255, 65536])
+        if self.rng.random() < 0.12:       # boundary ids; negative ones separate signed from unsigned id fields (creation / position vs update / call)
+            return self.rng.choice([0, 1, -5, -1, -2 ** 31, -77, 2 ** 31 - 1, 1154822, 255, 65536])
         self.next_id += self.rng.randrange(1, 4); return self.next_id
     def some_id(self):
         if self.ents and self.rng.random() < 0.9: return self.rng.choice(list(self.ents))
